@@ -380,10 +380,84 @@ def valid_seq(direction, syms):
     return True
 
 
+def install_points():
+    from dv import sched, simkernel as sk
+    mods = sk.load_node()
+    N = mods["node"].Node
+    return sched.install({N._handle_connections: r"peer_sockets|self\.connections\.get|_list\.append|_list \+=|select\.select",
+                          N.close_connection_socket: None, N.remove_peer_connection: None, N.receive_cea: r"close_connection_socket|result_code"})
+
+
+def cea_rejected_vs_io_loop(decisions, rc1=3010):
+    """Two dialled connections await their CEA; the first CEA rejects (the connection's reader thread closes the
+    connection and removes it from the tables), the second accepts - while the I/O loop goes on serving.  One schedule."""
+    from dv import sched
+    w = W.NodeWorld({"peers": [{"name": "peer1.example", "ip": ["10.1.1.1"], "persistent": True, "reconnect_wait": 1000},
+                               {"name": "peer2.example", "ip": ["10.1.1.2"], "persistent": True, "reconnect_wait": 1000}],
+                     "apps": [{"app_id": 4, "auth": True, "peers": [0, 1], "handler": "answer"}],
+                     "node_timers": {"idle": 5000, "dwa": 50, "cer": 50, "cea": 50, "wakeup": 5}, "default_dial": "ok"})
+    try:
+        w.start()
+        by_ip = {c.remote.addr[0]: c for c in w.conns if c.remote.addr}
+        c1, c2 = by_ip.get("10.1.1.1"), by_ip.get("10.1.1.2")
+        problems = []
+        if c1 is None or c2 is None:
+            return [], [("setup", "the two persistent peers were not dialled")]
+        ex = sched.Explorer(decisions)
+        sched.attach(w.k, ex)
+        for c, rc, host in ((c1, rc1, "peer1.example"), (c2, 2001, "peer2.example")):
+            cers = [f for f in c.refresh() if f.code == W.CMD_CE and f.is_request]
+            c.host = host
+            w.feed_msg(c, {"k": "CEA", "host": host, "result": rc, "auth": [4], "hbh": cers[-1].h["hbh"], "e2e": cers[-1].h["e2e"]}, run=False)
+        ex.armed = True
+        w.k.run()
+        ex.armed = False
+        w.advance(1)
+        for sig, d in W.monitor_threads(w):
+            problems.append((f"thread-died/{sig}", d))
+        if not c1.node_closed:
+            problems.append(("rejected-open", f"connection whose CEA carried {rc1} is still open"))
+        nc2 = w.node_conn_for(c2)
+        if nc2 is None or nc2.state not in w.mods["peer"].PEER_READY_STATES:
+            problems.append(("accepted-not-ready", "connection whose CEA carried 2001 is not ready"))
+        else:
+            # the node still serves: a DWR on the ready connection is answered
+            w.feed_msg(c2, {"k": "DWR", "host": "peer2.example", "hbh": 0x77, "e2e": 0x77})
+            if not [f for f in c2.refresh() if f.code == W.CMD_DW and not f.is_request and f.h["hbh"] == 0x77]:
+                problems.append(("not-served-afterwards", "DWR on the ready connection was not answered"))
+        return ex.trace, problems
+    finally:
+        w.close()
+
+
+def schedule_part(rec, shard, nshards, thorough):
+    from dv import sched
+    from dv.common import fp
+    info = install_points()
+    if shard == 0:
+        rec.extra["preemption_functions"] = info
+    holder = {}
+
+    def run_one(dec):
+        tr, problems = cea_rejected_vs_io_loop(dec)
+        holder["last"] = problems
+        return tr
+    n = 0
+    for dec, trace in sched.enumerate_schedules(run_one, 3 if thorough else 2, shard, nshards):
+        case = {"cea_rejected_vs_io_loop": True, "schedule": {str(i): c for i, c in sorted(dec.items())}}
+        for kind, detail in holder["last"]:
+            rec.violation(f"C06/concurrent-cea-rejection/{kind}", case, detail)
+        n += 1
+        rec.case(fp("sched", tuple(sorted(dec.items()))) if dec else None, ["schedule-exploration", f"deviations:{len(dec)}"],
+                 sample=lambda: dict(case, choice_points=len(trace)))
+    rec.extra["cea_rejection_schedules"] = rec.extra.get("cea_rejection_schedules", 0) + n
+
+
 def shard_main(shard, nshards, tier, scale):
     rec = Recorder(PID)
     thorough = tier == "thorough"
     shrunk = set()
+    schedule_part(rec, shard, nshards, thorough)
     depth = 4 if thorough else 3
     jobs = []
     for ci in (0, 1):
@@ -450,11 +524,25 @@ def run(tier, scale=1.0):
         rec.merge(d)
     required = {"dir:in": 1, "dir:out": 1, "outcome:ready": 1, "outcome:3010": 1, "outcome:5010": 1,
                 "outcome:rejected": 1, "outcome:timeout": 1, "noise:True": 1, "len:6": 1,
-                "other-peers-ready:2": 1, "pipelined-behind-rejected-cer": 1, "pipelined-behind-rejected-cea": 1}
+                "schedule-exploration": 1, "other-peers-ready:2": 1, "pipelined-behind-rejected-cer": 1, "pipelined-behind-rejected-cea": 1}
     return finish(rec, tier=tier, level="exploration", rule=RULE, assumptions=ASSUME, t0=t0,
                   required_classes=required,
                   extra_cov={"exhaustive_part": "all symbol sequences up to the enumeration depth for 2 base configurations x 2 directions"})
 
 
+def replay_schedule(doc):
+    install_points()
+    _, problems = cea_rejected_vs_io_loop({int(i): c for i, c in doc["case"]["schedule"].items()})
+    sigs = [f"C06/concurrent-cea-rejection/{k}" for k, _ in problems]
+    if doc["signature"] in sigs:
+        print(f"  replayed: {problems[0][1][:300]}")
+        print(f"VIOLATION property={PID} replay=(replay)")
+        return 1
+    print(f"[{PID}] replay: signature {doc['signature']} does not reproduce (got {sigs})")
+    return 0
+
+
 def replay(doc):
+    if doc["case"].get("cea_rejected_vs_io_loop"):
+        return replay_schedule(doc)
     return generic_replay(PID, evaluate, doc)
